@@ -4,6 +4,9 @@
 (* character is a string of length one obtained with At.                     *)
 EXTENDS Integers, Sequences, FiniteSets, TLC
 
+(* config files cannot hold a backslash: constants use the name "BS" for it *)
+Ch(c) == IF c = "BS" THEN "\\" ELSE c
+
 At(s, i) == IF i >= 1 /\ i <= Len(s) THEN SubSeq(s, i, i) ELSE ""
 Slice(s, a, b) == IF a >= b THEN "" ELSE SubSeq(s, a + 1, b)      \* Python s[a:b], 0-based, a <= b <= Len(s)
 Last(sq) == sq[Len(sq)]
